@@ -114,6 +114,16 @@ pub fn unit_canon(c: &Compound) -> String {
             }
         }
     }
+    // serde_cbor's Value::Map is ordered by CBOR key order; re-sort by the
+    // derived `Ord` of `Unit` (derived units by id, then base units by variant).
+    out.sort_by_key(|e: &String| {
+        let k = e.split(':').next().unwrap().to_string();
+        if let Some(id) = k.strip_prefix('D') {
+            (0u8, id.parse::<u64>().unwrap_or(0))
+        } else {
+            (1u8, BASES.iter().position(|(n, _)| *n == k).unwrap_or(99) as u64)
+        }
+    });
     if out.is_empty() {
         "-".to_string()
     } else {
